@@ -219,7 +219,16 @@ pub fn trace(
                 let instrumented_block =
                     gen_block(&func_name, &async_expr.block, true, false, &args);
                 let async_attrs = &async_expr.attrs;
+                // Only the `Box::pin(async move { .. })` tail is rewritten; the statements in
+                // front of it (none in code generated by async-trait, but possible in
+                // hand-written functions of the same shape) are kept as they are.
+                let leading_stmts = input
+                    .block
+                    .stmts
+                    .iter()
+                    .take_while(|stmt| !std::ptr::eq(*stmt, internal_fun._source_stmt));
                 quote::quote! {
+                    #(#leading_stmts)*
                     Box::pin(#(#async_attrs) * #instrumented_block)
                 }
             }
